@@ -245,7 +245,8 @@ CHECKS = {
               "(0 Hz not first), rb/el/rf interleaved and non-contiguous rb index arrays, non-symmetric (gyroscopic) damping compared with "
               "full-matrix terms MatD/MatV/MatA, solvepsd with a force that excites nothing modally but feeds through drmf and on four "
               "frequency-grid families (random, uniform, logarithmic, coarse with a refined band); one solver object called twice with the SAME "
-              "frequency / force arrays whose contents were changed in place. Thorough: sixteen independent instantiations per configuration."),
+              "frequency / force arrays whose contents were changed in place. Thorough: sixteen independent instantiations per configuration. Stress `lmul`: the equations of the elastic block of a coupled system combined by a conditioned L (M, B, K full and not "
+              "symmetric, same response) for both solvers."),
         ref="4/C02",
         note=("Trusted: TLC, generic term evaluator (numpy complex). Rigid-body equations undamped (modal-space rb); resonance is "
               "sampled on damped modes only. One genuine defect repaired (complex uncoupled system with rb and given mass, fix: "
